@@ -32,12 +32,12 @@ type tcase struct {
 }
 
 type testParams struct {
-	Src      string  `json:"src"`
-	Cases    []tcase `json:"cases"`
-	Grep     string  `json:"grep,omitempty"`
+	Src      string   `json:"src"`
+	Cases    []tcase  `json:"cases"`
+	Grep     string   `json:"grep,omitempty"`
 	Paths    []string `json:"paths,omitempty"`
-	Seed     uint64  `json:"shuffle_seed"`
-	Capacity int     `json:"capacity"`
+	Seed     uint64   `json:"shuffle_seed"`
+	Capacity int      `json:"capacity"`
 	// ReporterStall: the reporter yields this many times per event
 	ReporterStall int `json:"reporter_stall"`
 }
